@@ -397,7 +397,7 @@ func c12GenPool(g *Gen) {
 
 func c12GenScript(g *Gen) {
 	r := g.R
-	for i := 0; i < g.Pick(1500, 30000); i++ {
+	for i := 0; i < g.Pick(1200, 30000); i++ {
 		nOut := r.PickInt([]int{1, 1, 2, 2, 3, 5})
 		minPool := r.PickInt([]int{1024, 1024, 40, 100, 0})
 		maxFields := r.PickInt([]int{1, 3, 9, 14, 30})
